@@ -4,6 +4,7 @@ import Verif.Props.C05
 import Verif.Props.C18
 import Verif.Props.C08
 import Verif.Proofs.C09Json
+import Verif.Proofs.C09Embed
 import Verif.Proofs.C09XmlMain
 import Verif.Proofs.C09SvgMain
 import Verif.Proofs.C09Css
@@ -337,5 +338,14 @@ theorem js_script_embed_keeps : type_of% @Verif.Proofs.C09JsEmbed.js_script_embe
     element's end tag -/
 theorem html_script_with_js_fragment : type_of% @Verif.Proofs.C09JsEmbed.html_script_with_js_fragment :=
   @Verif.Proofs.C09JsEmbed.html_script_with_js_fragment
+
+/-! ## embedded languages -/
+
+/-- **K-C09-3 on the model of the CSS declaration writer**: the value tokens `<` `/` `style` `>` — none contains `</style` —
+    are written `</style >`, an appropriate end tag of the enclosing HTML `style` element: the `SubKeeps` contract of
+    `html_rawtext_end_stable_partial` is false for the CSS writer (for the JS-fragment printer it is a theorem:
+    `js_script_embed_keeps`).  Real code: `<style>a{b:< /style >}</style><p>x</p>` ↦ `<style>a{b:</style >}</style><p>x`. -/
+theorem css_writer_creates_style_end_tag : type_of% @Verif.Proofs.C09Embed.css_writer_creates_style_end_tag :=
+  @Verif.Proofs.C09Embed.css_writer_creates_style_end_tag
 
 end Verif.Props.C09
